@@ -61,7 +61,7 @@ func TestC14(t *testing.T) {
 	andNot := &Expr{Op: "and", Kids: []*Expr{{Op: "not", Kids: []*Expr{{Op: "leaf", Leaf: LIncB}}}, {Op: "leaf", Leaf: LIncA}}}
 	orTrv := &Expr{Op: "or", Kids: []*Expr{{Op: "leaf", Leaf: LTrvAP}, {Op: "leaf", Leaf: LIncB}}}
 	var cov struct {
-		pairs, cancelPairs, execs, trans, states, aloneExecs, skipped int
+		pairs, cancelPairs, execs, trans, states, aloneExecs, skipped, divergences int
 		complete                                       bool
 	}
 	cov.complete = true
@@ -77,9 +77,19 @@ func TestC14(t *testing.T) {
 		}
 		rows := w.Rows(ts)
 		exp := expand.NewEngine(&deps{RegistryDefault: w.Reg, ms: w.Store, names: w.Names})
+		want := map[string]string{} // request name -> the reference answer (checks on plain relations only)
 		chk := func(q refsem.Tuple) c14req {
 			iq := w.Internal(q)
-			return c14req{"check " + q.String(), func(ctx context.Context) string { return memb(w.Eng.CheckRelationTuple(ctx, iq, 0)) }}
+			name := "check " + q.String()
+			if q.Rel != "p" {
+				if ref := refsem.Check(w.Cfg, ts, q); ref.InDomain {
+					want[name] = "denied"
+					if ref.Allowed {
+						want[name] = "allowed"
+					}
+				}
+			}
+			return c14req{name, func(ctx context.Context) string { return memb(w.Eng.CheckRelationTuple(ctx, iq, 0)) }}
 		}
 		u := "u"
 		api := func(o string) *ketoapi.RelationTuple {
@@ -140,6 +150,10 @@ func TestC14(t *testing.T) {
 			ex := &vsched.Explore{Bound: bound, Deadline: deadline}
 			ex.Run(func(vc vsched.Config) *vsched.Execution { return exec(vc, []c14req{r}, out) },
 				func(x *vsched.Execution) bool {
+					if x.Outcome == "diverged" {
+						cov.divergences++
+						return true
+					}
 					if x.Outcome != "ok" {
 						run.Violation("abnormal:"+x.Outcome, fmt.Sprintf("request %q alone: execution %s", r.name, x.Outcome), nil)
 						return true
@@ -150,6 +164,15 @@ func TestC14(t *testing.T) {
 			cov.aloneExecs += ex.Execs
 			if !ex.Complete {
 				cov.complete = false
+			}
+			// a check on a plain relation (no rewrite involved, so none of the recorded findings apply)
+			// must give the reference answer even when other requests ran on this engine before it
+			if w, ok := want[r.name]; ok && ex.Complete && shard == 0 {
+				for got := range alone[i] {
+					if got != w {
+						run.Violation("wrong-answer-alone:"+strings.Fields(r.name)[0], fmt.Sprintf("request %q answers %q on its own (after other requests had been served by the same engine); the reference semantics say %q (config %s)", r.name, got, w, cfg.Name), map[string]any{"config": cfg.Name, "request": r.name, "tuples_in_row_order": tuplesStr(ts)})
+					}
+				}
 			}
 		}
 		// state kept for one request must not survive it: the base-schedule answer of every request,
@@ -191,6 +214,10 @@ func TestC14(t *testing.T) {
 							return true
 						}
 						rep := map[string]any{"config": cfg.Name, "opl": refsem.RenderOPL(cfg.NS), "tuples_in_row_order": tuplesStr(ts), "requests": []string{pair[0].name, pair[1].name}, "choices": x.Choices, "bound": bound}
+						if x.Outcome == "diverged" {
+							cov.divergences++
+							return true
+						}
 						if x.Outcome != "ok" || len(x.Leaked) > 0 {
 							reported = true
 							run.Violation("abnormal:"+x.Outcome, fmt.Sprintf("requests %q || %q: execution %s, leaked %v", pair[0].name, pair[1].name, x.Outcome, x.Leaked), rep)
@@ -246,6 +273,10 @@ func TestC14(t *testing.T) {
 							return true
 						}
 						rep := map[string]any{"config": cfg.Name, "opl": refsem.RenderOPL(cfg.NS), "tuples_in_row_order": tuplesStr(ts), "requests": []string{pair[0].name + " (cancelled at some point)", pair[1].name}, "choices": x.Choices}
+						if x.Outcome == "diverged" {
+							cov.divergences++
+							return true
+						}
 						if x.Outcome != "ok" || len(x.Leaked) > 0 {
 							reported = true
 							run.Violation("abnormal-with-cancel:"+x.Outcome, fmt.Sprintf("requests %q (cancelled) || %q: execution %s, leaked %v", pair[0].name, pair[1].name, x.Outcome, x.Leaked), rep)
@@ -301,6 +332,10 @@ func TestC14(t *testing.T) {
 							return true
 						}
 						rep := map[string]any{"config": cfg.Name, "opl": refsem.RenderOPL(cfg.NS), "tuples_in_row_order": tuplesStr(ts), "requests": []string{a.name + " (cancelled at some point)", "then " + b.name}, "choices": x.Choices, "base_order": bo}
+						if x.Outcome == "diverged" {
+							cov.divergences++
+							return true
+						}
 						if x.Outcome != "ok" || len(x.Leaked) > 0 {
 							reported = true
 							run.Violation("abnormal-with-cancel:"+x.Outcome, fmt.Sprintf("request %q (cancelled) then %q: execution %s, leaked %v", a.name, b.name, x.Outcome, x.Leaked), rep)
@@ -323,7 +358,12 @@ func TestC14(t *testing.T) {
 			run.Violation("shared-config-mutated-by-requests", fmt.Sprintf("the namespace AST served to all requests changed while requests ran (config %s): before %s after %s", cfg.Name, astBefore, after), map[string]any{"config": cfg.Name})
 		}
 }
+	if cov.divergences > 0 && run.Violations() == 0 {
+		// nothing else explains the divergence: not decided
+		fatalInfra("C14: %d schedule replays diverged and no oracle fired", cov.divergences)
+	}
 	run.FinishPart(map[string]any{
+		"replay_divergences":            cov.divergences,
 		"states":                        cov.states,
 		"transitions":                   cov.trans,
 		"traces_validated_against_impl": cov.execs + cov.aloneExecs,
